@@ -19,8 +19,10 @@ Flip(m, i) == [m EXCEPT ![OpenFlags[i]] = ~@]
 OpenMds == {DefaultMd} \cup {Flip(DefaultMd, i) : i \in 1..Len(OpenFlags)}
            \cup {Flip(Flip(DefaultMd, i), j) : i \in 1..Len(OpenFlags), j \in 1..Len(OpenFlags)}
 
+\* an extension knows the name it was registered under (E3: its argument errors name it)
+NamedExt(nm, v) == IF v.t = "fn" /\ v.k = "ext" THEN [x \in DOMAIN v \cup {"nm"} |-> IF x = "nm" THEN nm ELSE v[x]] ELSE v
 InitStore(input, binds, md) ==
-    [fr |-> << [p |-> 0, m |-> << <<"$", input>> >> \o binds] >>, md |-> md, perm |-> FALSE, eng |-> <<>>]
+    [fr |-> << [p |-> 0, m |-> << <<"$", input>> >> \o [i \in 1..Len(binds) |-> <<binds[i][1], NamedExt(binds[i][1], binds[i][2])>>]] >>, md |-> md, perm |-> FALSE, eng |-> <<>>]
 
 Run(ast, input, binds, md) == Eval(ast, input, 1, InitStore(input, binds, md))
 \* ... with the recorded observations of the regular-expression engine (C17)
@@ -74,7 +76,8 @@ Verdict1(obs, R) ==
           ELSE IF obs.o # "err" THEN "no"
           ELSE IF R.k = "Any" THEN "ok"
           ELSE IF R.k # obs.k THEN "no"
-          ELSE IF "i" \in DOMAIN R /\ "i" \in DOMAIN obs /\ R.i # obs.i THEN "no" ELSE "ok")
+          ELSE IF "i" \in DOMAIN R /\ "i" \in DOMAIN obs /\ R.i # obs.i THEN "no"
+          ELSE IF "fname" \in DOMAIN R /\ "fname" \in DOMAIN obs /\ R.fname # obs.fname THEN "no" ELSE "ok")
     ELSE IF IsUndef(R.r) THEN (IF obs.o = "undef" THEN "ok" ELSE "no")
     ELSE IF obs.o # "val" THEN "no"
     ELSE IF HasNumX(R.r) \/ HasBigDen(R.r) THEN "inc:number outside the model"
